@@ -8,7 +8,7 @@ ASSUME EmitReset
 EndSeq == SetToSeq(Ends)
 PoolSeq == SetToSeq(BagToSet(pooled))
 Behaviour ==
-    [sess |-> sess, steps |-> hist, resets |-> resets, cmode |-> cmode,
+    [sess |-> sess, steps |-> hist, resets |-> resets, cmode |-> cmode, ackc |-> ackc,
      ends |-> [k \in 1..Len(EndSeq) |->
                  [s |-> EndSeq[k][1], side |-> EndSeq[k][2],
                   verdict |-> st[EndSeq[k]].verdict, res |-> st[EndSeq[k]].res]],
@@ -18,7 +18,7 @@ Emit == EmitWhen(AllDone, Behaviour)
 
 \* behaviours of the pre-repair model (Resets = AsIsResets) that break the property: executed on
 \* the real code they either reproduce (violation) or show that the code no longer behaves so
-EmitUnsound == EmitWhen(AllDone /\ ~(SuccessSound /\ MutualGating /\ Agreement), Behaviour)
+EmitUnsound == EmitWhen(AllDone /\ ~(SuccessSound /\ MutualGating /\ Agreement /\ CorruptionEndsBoth), Behaviour)
 
 \* a mixed space for simulation
 GenSides(pid, id, cvs) ==
